@@ -323,6 +323,42 @@ example : (run foldSimp exOracle {} exEnv
 
 /-! ### message calls (Model.SevmCalls) -/
 
+/-- **C01.sound_calls_from.** `sound_calls_gen` from ANY first state `cs0` (`runCFrom`: `SEVM.run(ex0)`) related to a
+    concrete configuration — the frame `f0` in the world `ws` — with respect to the base world `w` (the world the
+    storage maps, the balance chain and the created accounts of `cs0` are relative to; for a first transaction
+    `ws = w`, `cs0 = initC …`: `relC_init`). Every untagged halting end is the outcome of `Evm.exec` from `ws`, `f0`
+    under every valuation satisfying its path, its maps describe the final world, and (`EndInv`) its concretization
+    map, balance chain and created accounts are well-formed — what `relC_nextTx` needs to start the next transaction
+    from it. -/
+theorem sound_calls_from {s : Simp} (hs : SimpSound s) (o : Oracle) (cfg : Cfg)
+    (codes : List (Nat × List Nat)) (fuel : Nat) (p : Evm.Params) (w ws : Evm.World)
+    (S : Nat → Prop) (cs0 : CState) (hSc : ∀ a prog, codeOf codes a = some prog → S a)
+    (hmem : cfg.maxMem + 32 ≤ p.memLimit) (hdep : 1024 ≤ p.maxDepth)
+    (hcodes : ∀ a, w.codeOf a = codeOf codes a)
+    (hcb : ∀ a prog, codeOf codes a = some prog → ∀ b ∈ prog, b < 256)
+    (hob : cfg.balances = true → OracleSound o) (hch : CreateHyp cfg p S w)
+    (hoh : cfg.hsto = true → OracleSound o ∧ cfg.sha3 = true)
+    (ce : CEnd) (hce : ce ∈ (runCFrom s o cfg codes fuel cs0).ends)
+    (htag : ce.e.tag = .normal) (h : Evm.Halt) (hout : ce.e.out = .halt h) (I : Interp) (hI : I.Std)
+    (hbal : cfg.balances = true → BalHyp I cfg w) (hsha : cfg.sha3 = true → ShaInterp I p cfg)
+    (hhs : ∀ cs, VisitedC s o cfg codes cs0 cs → Sat I cs.st.path → HstoOK I p s cfg cs)
+    (f0 : Evm.Frame) (hrel0 : RelC I p S w cs0 ws f0 []) (hsat : Sat I ce.e.st.path) :
+    ∃ n w', Evm.exec p n ws f0 = some (w', haltWith h (ce.e.data.map (·.eval I))) ∧
+        WRelM I S (wd w ce.created ce.nonce) w' (stoOf ce.stores) (evalLogs I ce.logs) (balSem I w ce.bal) ∧
+        HRel I p S w' ce.hsto ∧ EndInv I S ce := by
+  have hgood := exploreC_sound (o := o) (cfg := cfg) (codes := codes) (p := p) (w0 := w) (ws := ws)
+    (S := S) (cs0 := cs0)
+    (H := fun I => (cfg.balances = true → BalHyp I cfg w) ∧ (cfg.sha3 = true → ShaInterp I p cfg) ∧
+      ∀ cs, VisitedC s o cfg codes cs0 cs → Sat I cs.st.path → HstoOK I p s cfg cs)
+    hs hmem hdep hcodes hSc hcb hob (fun _ h => ⟨h.1, h.2.1⟩) hch hoh (fun _ _ h => h.2.2) fuel 0
+    [cs0] {} (by
+      intro cs hm
+      rw [List.mem_singleton] at hm
+      subst hm; exact ⟨goodC_init, .start⟩)
+    (by intro e hm; cases hm)
+  obtain ⟨w', ⟨n, hn⟩, hW, hH, hE⟩ := hgood ce hce htag h hout I hI ⟨hbal, hsha, hhs⟩ f0 hrel0 hsat
+  exact ⟨n, w', hn, hW, hH, hE⟩
+
 /-- **C01.sound_calls.** The same statement for the frame-stack machine `runC`, i.e. for programs that make message
     calls — CALL / CALLCODE (value: the literal 0), DELEGATECALL, STATICCALL to literal targets, nested to any depth
     the model follows: the target's code is looked up in `codes` (a target without code succeeds with no output), the
@@ -377,18 +413,8 @@ theorem sound_calls_gen {s : Simp} (hs : SimpSound s) (o : Oracle) (cfg : Cfg) (
     ∃ n w', Evm.exec p n w f0 = some (w', haltWith h (ce.e.data.map (·.eval I))) ∧
         WRelM I S (wd w ce.created ce.nonce) w' (stoOf ce.stores) (evalLogs I ce.logs) (balSem I w ce.bal) ∧
         HRel I p S w' ce.hsto := by
-  have hgood := exploreC_sound (o := o) (cfg := cfg) (codes := codes) (p := p) (w0 := w)
-    (S := S) (cs0 := initC env codes this)
-    (H := fun I => (cfg.balances = true → BalHyp I cfg w) ∧ (cfg.sha3 = true → ShaInterp I p cfg) ∧
-      ∀ cs, VisitedC s o cfg codes (initC env codes this) cs → Sat I cs.st.path → HstoOK I p s cfg cs)
-    hs hmem hdep hcodes hSc hcb hob (fun _ h => ⟨h.1, h.2.1⟩) hch hoh (fun _ _ h => h.2.2) fuel 0
-    [initC env codes this] {} (by
-      intro cs hm
-      rw [List.mem_singleton] at hm
-      subst hm; exact ⟨goodC_init, .start⟩)
-    (by intro e hm; cases hm)
-  obtain ⟨w', ⟨n, hn⟩, hW, hH⟩ :=
-    hgood ce hce htag h hout I hI ⟨hbal, hsha, hhs⟩ f0 (relC_init hR0 hthis hd0 hcb hS0 hz) hsat
+  obtain ⟨n, w', hn, hW, hH, _⟩ := sound_calls_from hs o cfg codes fuel p w w S (initC env codes this) hSc hmem hdep hcodes hcb
+    hob hch hoh ce hce htag h hout I hI hbal hsha hhs f0 (relC_init hR0 hthis hd0 hcb hS0 hz) hsat
   exact ⟨n, w', hn, hW, hH⟩
 
 /-- **C01.sound_calls** (statement and commentary above; `hnc`: CREATE is not followed — it ends the path stuck —, so
